@@ -22,7 +22,7 @@ PID = 'C12'
 PROPS_MODULE = 'SympdeModel.Props.C12'
 GEN = [identity.generate]
 LEANCHECKER = True
-RULE = ('computations = 16 parametrised recipes on the real API (chains of coordinate operators, catalogue mappings with numeric parameter sets, sums of integrals over different regions in every operand order and association, interface forms with explicit normals / Dn / jump / avg, TerminalExpr of grad/laplace/dot/div/curl/rot, bilinear forms with '
+RULE = ('computations = 18 parametrised recipes on the real API (joins of patches with symbolic mappings and lowerings on the same objects with / without an earlier join, symmetric products of same-class operands over one function, chains of coordinate operators, catalogue mappings with numeric parameter sets, sums of integrals over different regions in every operand order and association, interface forms with explicit normals / Dn / jump / avg, TerminalExpr of grad/laplace/dot/div/curl/rot, bilinear forms with '
         'domain and boundary integrals, LogicalExpr on plain / polar / identity mapped squares for every space kind, SymbolicExpr, '
         'derivative-index helpers, hodge/d/infere_type on differential forms, Union, Domain.join + todict, Dot/Inner of permuted '
         'operands, Equation with essential BCs, mapped n-cubes) with names drawn from small pools; case = (history of 1-6 '
@@ -184,7 +184,11 @@ def dom_dim(d):
 
 def gen_step(rng, U):
     k = rng.choice(['tgrad', 'tgrad', 'tvec', 'form', 'logical', 'symbolic', 'idxder', 'hodge', 'union', 'join', 'comm',
-                    'equation', 'mapped', 'chain', 'chain', 'amap', 'intsum', 'iface'])
+                    'equation', 'mapped', 'chain', 'chain', 'amap', 'intsum', 'iface', 'joinlow', 'symprod'])
+    if k == 'joinlow':
+        return gen_joinlow(rng, U)
+    if k == 'symprod':
+        return gen_symprod(rng, U)
     if k == 'iface':
         return gen_iface(rng, U)
     if k == 'amap':
@@ -241,6 +245,9 @@ def gen_step(rng, U):
         dim = U.pick('joindim', 0, lambda: rng.choice([1, 2, 3]))
         n = rng.randint(2, 3)
         patches = [['cube', 'P%d' % i, dim, i] for i in range(n)]
+        if dim >= 2 and rng.random() < 0.4:
+            # patches with symbolic mappings: join builds InterfaceMappings from the patches' mappings
+            patches = [['map', 'F%d' % i, 'plain', 'P%d' % i, dim, i] for i in range(n)]
         conns = []
         for i in range(n - 1):
             cn = [[i, 0, 1], [i + 1, 0, -1]]
@@ -302,6 +309,26 @@ def gen_iface(rng, U):
     return {'r': 'iface', 'p': {'dim': dim, 'names': ['A', 'B'], 'name': rng.choice(POOLS['domain']), 'sp': rng.choice(POOLS['space']),
                                 'fn': rng.choice(POOLS['function']), 'normal': rng.choice(['n', 'n', 'nn']),
                                 'bil': rng.sample(IFACE_BIL, rng.randint(1, 3)), 'lin': rng.sample(IFACE_LIN, rng.randint(0, 2))}}
+
+
+def gen_joinlow(rng, U, join_first=None):
+    """two patches with symbolic mappings; Domain.join on them first or not; then a form on one of them is lowered"""
+    ms = rng.sample(['F1', 'F2', 'M', 'N'], 2)
+    return {'r': 'joinlow', 'p': {'dim': 2, 'maps': ms, 'names': ['A', 'B'], 'name': rng.choice(POOLS['domain']),
+                                  'sp': rng.choice(POOLS['space']), 'fn': rng.choice(POOLS['function']),
+                                  'side': rng.choice(['plus', 'plus', 'minus']),
+                                  'join_first': (rng.random() < 0.5) if join_first is None else join_first}}
+
+
+SYMPAIRS = {'gg_lap': (2, 3), 'cc': (3,), 'f_cf': (3,), 'inner_gg': (2, 3), 'gdiv': (2, 3), 'cross_cc': (3,)}
+
+
+def gen_symprod(rng, U):
+    """dot / inner / cross of two operands of one class built from the same function with different nesting depth"""
+    pair = rng.choice(sorted(SYMPAIRS))
+    dim = rng.choice(SYMPAIRS[pair])
+    return {'r': 'symprod', 'p': {'dom': ['cube', rng.choice(POOLS['domain']), dim, 0], 'sp': rng.choice(POOLS['space']),
+                                  'fn': rng.choice(POOLS['function']), 'pair': pair}}
 
 
 def gen_intsum(rng, U):
@@ -393,8 +420,10 @@ def rename(step, classes, suffix):
             p['name'] += suffix
     if 'names' in p and 'domain' in classes:
         p['names'] = [n + suffix for n in p['names']]
-        if st.get('r') == 'iface':
+        if st.get('r') in ('iface', 'joinlow'):
             p['name'] += suffix
+    if 'maps' in p and 'mapping' in classes:
+        p['maps'] = [m + suffix for m in p['maps']]
     if 'space' in classes:
         if isinstance(p.get('sp'), list):
             p['sp'][1] += suffix
@@ -427,7 +456,7 @@ def with_clears(rng, hist):
 
 
 ORDERED = {'union': lambda p: len(p['names']), 'join': lambda p: len(p['conns']), 'comm': lambda p: 2,
-           'form': lambda p: 2 + len(p.get('bnd') or []), 'intsum': lambda p: len(p['regions'])}
+           'form': lambda p: 2 + len(p.get('bnd') or []), 'intsum': lambda p: len(p['regions']), 'symprod': lambda p: 2}
 
 
 # --------------------------------------------------------------------------- correspondence: the memo model
@@ -529,6 +558,8 @@ def named(st):
         out['function'][n] = (json.dumps(p.get('sp')), ctx)
     if st.get('r') == 'hodge':
         out['form'][p['name']] = (p['k'], p['n'])
+    for m_ in p.get('maps', []):
+        out['mapping'][m_] = ('plain', p['dim'])
     if st.get('r') == 'amap':
         out['mapping'][p['mname']] = (p['mcls'], 2, json.dumps(p['params'], sort_keys=True))
     return out
@@ -630,8 +661,8 @@ def check_order(o, farm, st, rng):
     ref = view(ref_out)
     if ref_out.get('bad'):
         o.fail('order:%s:%s:assoc' % (st['r'], json.dumps(st['p'], sort_keys=True)),
-               'the sum of integrals over different regions depends on the association of its operands (%s-nested vs left-nested, same '
-               'operand order): %s' % (base['p'].get('shape', 'left'), ref_out['bad']), step=step_str(base))
+               '%s depends on the order / association of its operands (%%s-nested vs left-nested / swapped, same '
+               'supplied order): %%s' % ('the sum of integrals over different regions' if st['r'] == 'intsum' else 'the symmetric product') % (base['p'].get('shape', 'left'), ref_out['bad']), step=step_str(base))
         return
     for _ in range(2):
         perm = list(range(n))
@@ -647,8 +678,8 @@ def check_order(o, farm, st, rng):
         for out in [x[0] for x in r1] + [r2[-1]]:
             if out.get('bad'):
                 o.fail('order:%s:%s:%s' % (st['r'], json.dumps(st['p'], sort_keys=True), perm),
-                       'the sum of integrals over different regions depends on the order / association of its operands (order %s, %s-nested, '
-                       'compared in one interpreter with the left-nested sum in the order %s): %s'
+                       '%s depends on the order / association of its operands (order %%s, %%s-nested, '
+                       'compared in one interpreter with the reference order %%s): %%s' % ('the sum of integrals over different regions' if st['r'] == 'intsum' else 'the symmetric product')
                        % (perm, var['p'].get('shape', 'left'), list(range(n)), out['bad']), step=step_str(var))
                 return
             if out.get('mut'):
@@ -668,6 +699,36 @@ FIXED_ORDER = [
     {'r': 'intsum', 'p': {'dom': ['cube', 'Omega', 2, 0], 'sp': ['S', 'V', None], 'fn': 'u', 'regions': [0, 2, 3], 'shape': 'right'}},
     {'r': 'intsum', 'p': {'dom': ['cube', 'Omega', 3, 0], 'sp': ['S', 'V', None], 'fn': 'u', 'regions': [5, 1], 'shape': 'left'}},
 ]
+FIXED_ORDER += [
+    # symmetric products of operands of one class over the same function (seed C12-6)
+    {'r': 'symprod', 'p': {'dom': ['cube', 'Omega', 2, 0], 'sp': 'V', 'fn': 'u', 'pair': 'gg_lap'}},
+    {'r': 'symprod', 'p': {'dom': ['cube', 'Omega', 3, 0], 'sp': 'V', 'fn': 'u', 'pair': 'cc'}},
+    {'r': 'symprod', 'p': {'dom': ['cube', 'Omega', 3, 0], 'sp': 'V', 'fn': 'u', 'pair': 'inner_gg'}},
+]
+FIXED_SHARED = [
+    # Domain.join on two symbolic-mapped patches before a lowering on the plus-side patch (seed C12-5)
+    {'r': 'joinlow', 'p': {'dim': 2, 'maps': ['F1', 'F2'], 'names': ['A', 'B'], 'name': 'Omega', 'sp': 'V', 'fn': 'u', 'side': 'plus'}},
+    {'r': 'joinlow', 'p': {'dim': 2, 'maps': ['F1', 'F2'], 'names': ['A', 'B'], 'name': 'Omega', 'sp': 'V', 'fn': 'u', 'side': 'minus'}},
+]
+
+
+def check_shared(o, farm, st):
+    """the same objects with and without an earlier Domain.join on them: the lowering must not change, the patches
+    (and their mappings) must be left as they were"""
+    sv0 = farm.on[0]
+    a, b = copy.deepcopy(st), copy.deepcopy(st)
+    a['p']['join_first'], b['p']['join_first'] = False, True
+    ra, rb = sv0.ask([a])[0], sv0.ask([b])[0]
+    o.count('shared:' + st['r'])
+    for r_, s_ in ((ra, a), (rb, b)):
+        if r_.get('mut'):
+            o.fail('mutates-input:%s' % st['r'], 'computing %s alters its inputs: %s' % (step_str(s_), r_['mut']), step=step_str(s_))
+    if view(ra) != view(rb):
+        o.fail('shared-objects:%s' % step_str(a),
+               'lowering a form on a mapped patch gives %s, but %s after Domain.join was called on the same two patches in the same interpreter'
+               % (view(ra), view(rb)), step=step_str(b))
+
+
 FIXED = [
     # (key expected on the pre-fix tree, history, final, mode)
     ('name-reuse:mapping-parameters', [_AMAP(0, 1)], _AMAP(1, 3), 'reuse'),      # seed C12-3
@@ -726,11 +787,14 @@ def oracle(ctx, factor, seeds):
         for st in FIXED_ORDER:
             o.evaluations += 1
             check_order(o, farm, st, rng)
+        for st in FIXED_SHARED + [gen_joinlow(rng, None) for _ in range(6 if ctx.thorough else 2)]:
+            o.evaluations += 1
+            check_shared(o, farm, st)
         nord = (240 if ctx.thorough else 24) * factor
         U = Universe(rng, consistent=False)
         k = 0
         while k < nord:
-            st = gen_intsum(rng, U) if k % 3 == 0 else gen_step(rng, U)
+            st = gen_intsum(rng, U) if k % 4 == 0 else (gen_symprod(rng, U) if k % 4 == 1 else gen_step(rng, U))
             if st['r'] in ORDERED:
                 o.evaluations += 1
                 check_order(o, farm, st, rng)
